@@ -94,6 +94,8 @@ fn materialize(t: &Value, style: u64) -> Vec<u8> {
         "ffpad" => b"\x0c{\"==\":[1,1]}".to_vec(),
         "nbsppad" => "null\u{a0}".as_bytes().to_vec(),
         // a byte order mark before the document: not JSON white space either
+        // a document inside a pair of apostrophes (what a shell that does not strip them would hand over)
+        "aposquoted" => b"'{\"a\": 1}'".to_vec(),
         "bompad" => "\u{feff}{\"a\": 1}".as_bytes().to_vec(),
         "nelpad" => "\u{85}1".as_bytes().to_vec(),
         "lspad" => "[1]\u{2028}".as_bytes().to_vec(),
